@@ -43,6 +43,13 @@ func c08(r *Report) {
 	c08Rollback(r, add)
 	c08LoadState(r)
 	c08NoSharedData(r)
+	c08DigestReadFromTree(r)
+	// reloading "no leaves" yields an EMPTY tree (fix: Load returned early and left the previous content — the rolled-back
+	// first transaction of a DAG stayed in the digests)
+	ld := p.Func(dag+"/tree", "tree", "Load")
+	r.MustReach(MustReach{ID: "C08.rollback.empty-reload-resets-the-tree", Fn: ld, Cond: CmpCheck("len(leaves) == 0", token.EQL, LenV(ParamV("leaves")), IntV(0), true),
+		Target: Fn(dag+"/tree", "tree", "resetDefaults")})
+	c08AddCriticalSection(r, add)
 	c08ClockMonotone(r)
 	r.Own(OwnSpec{ID: "C08.own.loadState", Op: "call loadState", Sites: p.CallSites(Fn(dag, "state", "loadState"), true), Min: 2, Owners: map[string]string{
 		"(*network/dag.state).Add":       "OnRollback callback",
@@ -407,4 +414,147 @@ func c08ClockMonotone(r *Report) {
 	r.ArgIs("C08.clock.cas-to-tx-clock", us, cas, 1, clock, 1)
 	r.Own(OwnSpec{ID: "C08.clock.raise-only-in-updateState", Op: "raise the highest Lamport clock (CompareAndSwap)", Sites: p.CallSites(cas, true), Min: 1,
 		Owners: map[string]string{"(*network/dag.state).updateState": "admission of a transaction"}})
+}
+
+// c08DigestReadFromTree: what XOR()/IBLT() hand out is read from the tree store at the time of the call: there is no second,
+// separately maintained copy of a digest that the writers (Add, reload, repair) would each have to remember to refresh.
+func c08DigestReadFromTree(r *Report) {
+	p := r.P
+	const dag = "network/dag"
+	getters := CallV(AnyOf(Fn(dag, "treeStore", "getZeroTo"), Fn(dag, "treeStore", "getRoot")), -1)
+	fromTree := OriginV(getters)
+	for _, c := range []struct{ method, what string }{{"XOR", "hash"}, {"IBLT", "filter"}} {
+		rule := "ARG: the " + c.what + " returned by state." + c.method + " is derived from the value treeStore.getZeroTo/getRoot returned in this call"
+		fn := p.Func(dag, "state", c.method)
+		if fn == nil {
+			r.Lost("C08.digest.read-from-tree."+c.method, rule, "function not found")
+			continue
+		}
+		key := "C08.digest.read-from-tree @ " + p.FuncName(fn)
+		n, bad := 0, ""
+		for _, b := range fn.Blocks {
+			ret, ok := b.Instrs[len(b.Instrs)-1].(*ssa.Return)
+			if !ok || len(ret.Results) == 0 {
+				continue
+			}
+			n++
+			v := Unspill(ret.Results[0])
+			// peel: method call on / dereference of / type assertion of the tree data
+			for i := 0; i < 6; i++ {
+				v = StripConv(v)
+				switch x := v.(type) {
+				case *ssa.Call:
+					if x.Call.IsInvoke() {
+						v = x.Call.Value
+						continue
+					}
+					if len(x.Call.Args) > 0 && x.Call.StaticCallee() != nil && x.Call.StaticCallee().Signature.Recv() != nil && !getters.M(x) {
+						v = x.Call.Args[0]
+						continue
+					}
+				case *ssa.UnOp:
+					if x.Op == token.MUL {
+						if _, isAlloc := x.X.(*ssa.Alloc); !isAlloc {
+							v = x.X
+							continue
+						}
+					}
+				case *ssa.TypeAssert:
+					v = x.X
+					continue
+				}
+				break
+			}
+			if !fromTree.M(v) && !c08HelperReturnsTreeData(p, v, fromTree) {
+				bad = p.Pos(ret.Pos()) + ": returns " + AccessPath(ret.Results[0], 0)
+			}
+		}
+		r.Sites += n
+		switch {
+		case n == 0:
+			r.Lost(key, rule, "no return found")
+		case bad != "":
+			r.Bad(key, rule, bad, "the returned "+c.what+" does not come from the tree store (a cached copy has to be kept in step by every writer, including the repair and the rollback reload)")
+		default:
+			r.OK(key, rule, p.Pos(fn.Pos()), fmt.Sprintf("%d return(s)", n), true)
+		}
+	}
+}
+
+// c08HelperReturnsTreeData: v is (a component of) the result of a helper of the dag package every return of which hands
+// back, in that position, a value read from the tree store (the page-selection block extracted into a helper).
+func c08HelperReturnsTreeData(p *Prog, v ssa.Value, fromTree VPat) bool {
+	idx := 0
+	if ex, ok := v.(*ssa.Extract); ok {
+		idx = ex.Index
+		v = ex.Tuple
+	}
+	call, ok := v.(*ssa.Call)
+	if !ok {
+		return false
+	}
+	h := call.Call.StaticCallee()
+	if h == nil || len(h.Blocks) == 0 || !p.InModule(h) || !strings.HasSuffix(h.Pkg.Pkg.Path(), "/network/dag") {
+		return false
+	}
+	n := 0
+	for _, b := range h.Blocks {
+		ret, ok := b.Instrs[len(b.Instrs)-1].(*ssa.Return)
+		if !ok || idx >= len(ret.Results) {
+			continue
+		}
+		n++
+		if !fromTree.M(StripConv(Unspill(ret.Results[idx]))) {
+			return false
+		}
+	}
+	return n > 0
+}
+
+// c08AddCriticalSection: the write of Add and the reload after its rollback are one critical section — the database releases
+// its write lock before it calls OnRollback, and another Add in that window inserts into (and persists) trees that still hold
+// the rolled-back transaction. The mutex is taken before db.Write and released either after Write returned (deferred) or at
+// the start of the AfterCommit callback.
+func c08AddCriticalSection(r *Report, add *ssa.Function) {
+	p := r.P
+	rule := "ORDER: state.Add locks the state's add-mutex before db.Write; the unlock is deferred (so it follows the OnRollback reload) and is not called inside the OnRollback callback"
+	key := "C08.rollback.add-and-reload-are-one-critical-section"
+	if add == nil {
+		r.Lost(key, rule, "state.Add not found")
+		return
+	}
+	key += " @ " + p.FuncName(add)
+	locks := Calls(add, Fn("std:sync", "Mutex", "Lock"))
+	writes := Calls(add, Fn(stoabsPkg, "KVStore", "Write"))
+	r.Sites += len(locks) + len(writes)
+	if len(writes) != 1 {
+		r.Lost(key, rule, fmt.Sprintf("%d Write calls", len(writes)))
+		return
+	}
+	ok := false
+	for _, l := range locks {
+		if FieldV("state", "addMutex").M(CallArg(l.Common(), -1)) || strings.Contains(AccessPath(CallArg(l.Common(), -1), 0), "Mutex") {
+			if InstrDominates(l, writes[0]) {
+				ok = true
+			}
+		}
+	}
+	if !ok {
+		r.Bad(key, rule, p.Pos(writes[0].Pos()), "db.Write is not dominated by a Lock of the state's mutex")
+		return
+	}
+	// a deferred unlock exists in Add itself
+	deferred := false
+	for _, b := range add.Blocks {
+		for _, in := range b.Instrs {
+			if _, isDefer := in.(*ssa.Defer); isDefer {
+				deferred = true
+			}
+		}
+	}
+	if !deferred {
+		r.Bad(key, rule, p.Pos(add.Pos()), "no deferred unlock in Add: the mutex would be released before (or never after) the rollback reload")
+		return
+	}
+	r.OK(key, rule, p.Pos(writes[0].Pos()), "Lock dominates db.Write; unlock deferred", true)
 }
